@@ -1015,6 +1015,21 @@ func hostile() *World {
 		Blocks: map[string]*schema.BlockSchema{
 			// block schema without body, labels or anything else
 			"plain": {},
+			// dependent body selected by three key attributes (the key must not depend on the order they are listed in)
+			"tri": {
+				Body: &schema.BodySchema{Attributes: map[string]*schema.AttributeSchema{
+					"alpha": {IsOptional: true, IsDepKey: true, Constraint: schema.LiteralType{Type: cty.String}},
+					"beta":  {IsOptional: true, IsDepKey: true, Constraint: schema.LiteralType{Type: cty.String}},
+					"gamma": {IsOptional: true, IsDepKey: true, Constraint: schema.LiteralType{Type: cty.String}},
+				}},
+				DependentBody: map[schema.SchemaKey]*schema.BodySchema{
+					schema.NewSchemaKey(schema.DependencyKeys{Attributes: []schema.AttributeDependent{
+						{Name: "alpha", Expr: schema.ExpressionValue{Static: cty.StringVal("a")}},
+						{Name: "beta", Expr: schema.ExpressionValue{Static: cty.StringVal("b")}},
+						{Name: "gamma", Expr: schema.ExpressionValue{Static: cty.StringVal("c")}},
+					}}): {Attributes: map[string]*schema.AttributeSchema{"other": {IsOptional: true, Constraint: schema.LiteralType{Type: cty.Number}}}},
+				},
+			},
 			// block schema without body
 			"nobody": {Labels: []*schema.LabelSchema{{Name: "n", IsDepKey: true}}},
 			// dependent bodies only, with dynamic blocks propagated into body-less nested blocks
@@ -1093,6 +1108,9 @@ func hostile() *World {
 				"key":  {IsOptional: true, Constraint: schema.LiteralType{Type: cty.String}}}}},
 			"lvb": {IsOptional: true, Constraint: schema.LiteralValue{Value: cty.True}},
 			"ltb": {IsOptional: true, Constraint: schema.LiteralType{Type: cty.Bool}},
+			// references typed where a bool literal is expected
+			"lvr": {IsOptional: true, Constraint: schema.OneOf{schema.LiteralValue{Value: cty.True}, schema.LiteralValue{Value: cty.False}}},
+			"ltr": {IsOptional: true, Constraint: schema.LiteralType{Type: cty.Bool}},
 		},
 		TargetableAs: schema.Targetables{
 			{Address: lang.Address{lang.RootStep{Name: "root"}, lang.AttrStep{Name: "t"}}, ScopeId: "r", AsType: cty.Object(map[string]cty.Type{"in": cty.String}),
@@ -1104,6 +1122,8 @@ func hostile() *World {
 	doc := `esc = { "a\"b" = "1", key = "2" }
 lvb =   true
 ltb =   false
+lvr = bv.n1.enabled[0]
+ltr = t.f
 nobody "q" {
   z = 1
 }
@@ -1148,6 +1168,12 @@ byval {
 }
 plain {
 }
+tri {
+  alpha = "a"
+  beta  = "b"
+  gamma = "c"
+  other = 42
+}
 resource {
   pw = "x"
 }
@@ -1181,6 +1207,12 @@ func modsSchemaRoot() *schema.BodySchema {
 				Body: &schema.BodySchema{Attributes: map[string]*schema.AttributeSchema{
 					"source": {IsRequired: true, IsDepKey: true, Constraint: schema.LiteralType{Type: cty.String}}}},
 				DependentBody: map[schema.SchemaKey]*schema.BodySchema{
+					// a module whose source is the directory itself: its inputs are path origins into their own path
+					attrDepStr("source", "./"): {
+						Attributes: map[string]*schema.AttributeSchema{"region": {IsOptional: true, Constraint: schema.AnyExpression{OfType: cty.DynamicPseudoType},
+							OriginForTarget: &schema.PathTarget{Address: schema.Address{schema.StaticStep{Name: "var"}, schema.AttrNameStep{}}, Path: lang.Path{Path: "p1", LanguageID: "tf"},
+								Constraints: schema.Constraints{ScopeId: "variable"}}}},
+					},
 					attrDepStr("source", "./mod"): {
 						Targets:    &schema.Target{Path: modPath, Range: sentinelRange},
 						Attributes: map[string]*schema.AttributeSchema{"name": input(), "size": input()},
@@ -1224,7 +1256,7 @@ func modsWorld(unreadable bool) *World {
 	vars := &World{Name: "mods-vars", Schema: varsSchema, Funcs: stdFuncs(), Docs: map[string]string{"x.tfvars": "name = \"n\"\nregion = \"eu\"\n"}}
 	w := &World{Name: "mods", Schema: modsSchemaRoot(), Funcs: stdFuncs(),
 		Docs: map[string]string{"main.tf": "variable \"name\" {\n  type = string\n}\nvariable \"region\" {\n  default = \"eu\"\n}\nmodule \"m\" {\n  source = \"./mod\"\n  name   = var.name\n  size   = 3\n}\n" +
-			"module \"other\" {\n  source = \"./unknown\"\n  name   = 1\n}\noutput \"o\" {\n  value = [module.m.x, var.region, var.name]\n}\n"},
+			"module \"other\" {\n  source = \"./unknown\"\n  name   = 1\n}\nmodule \"again\" {\n  source = \"./\"\n  region = \"eu\"\n}\noutput \"o\" {\n  value = [module.m.x, var.region, var.name]\n}\n"},
 		Peers: map[string]*World{"p2": sub, "p1#vars": vars}}
 	if unreadable {
 		w.Name = "modsbroken"
